@@ -542,8 +542,21 @@ def h_pace( ctx ):
         res.bad( src, tr[0] if tr else ps, 'end of file handling', 'end of file (StopIteration) must end the generator so that the loader switches to the next file' )
     # a later record whose timestamp / serial cannot be parsed is reported as ( None, None ) and the file goes on (the loader skips such a
     # record): the parse of a non-first record needs a handler for everything but StopIteration that does not end the generator
-    soft = [ h for h in ( tr[0].handlers if tr else [] ) if ( h.type is None or dotted( h.type ) in ( 'Exception', 'BaseException' ))
-             and not any( isinstance( b, ast.Raise ) for b in ast.walk( h )) ]
+    # ( the handler is for what PARSING a consumed line raises - ValueError: decoding, splitting, timestamp, serial.  A failure of the stream
+    # itself - a truncated or damaged compressed file: EOFError, OSError, zlib.error - repeats on every further read; handled like a bad
+    # line it is reported as ( None, None ) without end and load() never returns.  A catch-all is accepted where it ends the file. )
+    def types_( h ):
+        return { None } if h.type is None else { dotted( e ) for e in ( h.type.elts if isinstance( h.type, ast.Tuple ) else [ h.type ] ) }
+    BROAD = { None, 'Exception', 'BaseException', 'EOFError', 'EnvironmentError', 'OSError', 'IOError', 'zlib.error' }
+    hs_ = [ h for h in ( tr[0].handlers if tr else [] ) if types_( h ) != { 'StopIteration' } ]
+    leaves_ = lambda h: any( isinstance( b, ( ast.Raise, ast.Break, ast.Return )) for b in ast.walk( h ))
+    soft = [ h for h in hs_ if not leaves_( h ) ]
+    for h in soft:
+        if types_( h ) & BROAD:
+            res.bad( src, h, 'a failure of the stream is treated like an unparsable line ( except %s )' % ( norm_text( h.type ) if h.type is not None else '' ),
+                     'a truncated or damaged compressed file raises from every further read: reported as ( None, None ) and skipped, the loader asks again without end - load() never returns' )
+        else:
+            res.ok( src, h, 'only what parsing a consumed line raises ( %s ) is reported and skipped' % norm_text( h.type ))
     if soft:
         res.ok( src, soft[0], 'an unparsable later record is reported and skipped' )
         # ... and what is reported for it is "no record": the handler clears ( ts, js ) - left alone they still hold the record yielded
